@@ -8,23 +8,35 @@ import struct
 
 
 class MB(bytes):
-    def __new__(cls, b=b"", marks=()):
+    """bytes + `marks` (boundary offsets: all 256 values, sliced in the quick tier) + `keys` (protocol selectors, type / code /
+    length fields, option kind and length octets: all 256 values in BOTH tiers; keys are marks too)"""
+    def __new__(cls, b=b"", marks=(), keys=(), groups=None):
         o = bytes.__new__(cls, b)
-        o.marks = tuple(sorted(set(m for m in marks if 0 <= m < len(b))))
+        o.keys = tuple(sorted(set(m for m in keys if 0 <= m < len(b))))
+        o.marks = tuple(sorted(set(m for m in tuple(marks) + tuple(keys) if 0 <= m < len(b))))
+        # the keys grouped by header, outermost first (a header built with H() is one group)
+        o.groups = tuple(groups) if groups is not None else ((o.keys,) if o.keys else ())
         return o
+
+    @property
+    def inner_keys(self):
+        """keys of the innermost header that has any"""
+        return self.groups[-1] if self.groups else ()
 
 
 def cat(*parts):
-    out = b""; marks = []
+    out = b""; marks = []; keys = []; groups = []
     for p in parts:
         marks += [len(out) + m for m in getattr(p, "marks", ())]
+        keys += [len(out) + m for m in getattr(p, "keys", ())]
+        groups += [tuple(len(out) + m for m in g) for g in getattr(p, "groups", ())]
         out += bytes(p)
-    return MB(out, marks)
+    return MB(out, marks, keys, groups)
 
 
-def H(b, *marks):
+def H(b, *marks, keys=()):
     """a header: its first byte is a boundary, plus the listed offsets"""
-    return MB(b, (0,) + tuple(marks))
+    return MB(b, (0,) + tuple(marks), keys)
 
 
 def rfc1071(data):
@@ -43,28 +55,40 @@ BCAST = b"\xff" * 6
 
 
 def eth(typ, payload, dst=MAC_B, src=MAC_A):
-    return cat(H(dst + src + struct.pack("!H", typ), 12, 13), payload)
+    return cat(H(dst + src + struct.pack("!H", typ), keys=(12, 13)), payload)
 
 
 def vlan(typ, payload, pcp=5, cfi=0, vid=0xabc):
-    return cat(H(struct.pack("!HH", (pcp << 13) | (cfi << 12) | vid, typ), 2, 3), payload)
+    return cat(H(struct.pack("!HH", (pcp << 13) | (cfi << 12) | vid, typ), keys=(2, 3)), payload)
 
 
 def llc(dsap, ssap, ctrl, payload, two=False):
     h = bytes([dsap, ssap, ctrl & 0xff]) + (bytes([ctrl >> 8]) if two else b"")
-    return cat(H(h, 1, 2), payload)
+    return cat(H(h, keys=(0, 1, 2)), payload)
 
 
 def snap(oui, typ, payload, ctrl=3, dsap=0xaa, ssap=0xaa, two=False):
     """LLC + SNAP; `two` = two-octet control field (I/S format: bit 0 of the first control octet clear, or low bits 01)"""
     c = bytes([ctrl & 0xff]) + (bytes([ctrl >> 8]) if two else b"")
     n = 3 + len(c)
-    return cat(H(bytes([dsap, ssap]) + c + oui + struct.pack("!H", typ), 1, 2, 3, n, n + 1, n + 2, n + 3, n + 4), payload)
+    return cat(H(bytes([dsap, ssap]) + c + oui + struct.pack("!H", typ), 3, n, n + 1, n + 2, keys=(0, 1, 2, n + 3, n + 4)), payload)
 
 
 def arp(op=1, hwtype=1, ptype=0x0800, hwlen=6, plen=4, sha=MAC_A, spa=0x0a000001, tha=b"\0" * 6, tpa=0x0a000002, trail=b""):
     return cat(H(struct.pack("!HHBBH", hwtype, ptype, hwlen, plen, op) + sha + struct.pack("!I", spa) + tha + struct.pack("!I", tpa),
-                 1, 3, 4, 5, 7), trail)
+                 keys=(1, 3, 4, 5, 7)), trail)
+
+
+def opt_keys(opts, base, single=(0, 1)):
+    """offsets (from `base`) of the kind and length octets of a TLV option area (kinds in `single` are one octet), plus its last 4 octets"""
+    ks = set(range(max(0, len(opts) - 4), len(opts))); i = 0
+    while i < len(opts):
+        ks.add(i)
+        if opts[i] in single: i += 1; continue
+        if i + 1 >= len(opts): break
+        ks.add(i + 1)
+        i += max(2, opts[i + 1])
+    return tuple(base + k for k in sorted(ks))
 
 
 def ip4(proto, payload, opts=b"", frag=0, flags=2, iplen=None, ttl=64, src=0x0a010203, dst=0xc0a80001, trail=b"", tos=0, ident=0x1234):
@@ -72,11 +96,11 @@ def ip4(proto, payload, opts=b"", frag=0, flags=2, iplen=None, ttl=64, src=0x0a0
     tot = 20 + len(opts) + len(payload) if iplen is None else iplen
     h = struct.pack("!BBHHHBBHII", 0x40 | hl, tos, tot, ident, (flags << 13) | frag, ttl, proto, 0, src, dst) + opts
     h = h[:10] + struct.pack("!H", rfc1071(h)) + h[12:]
-    return cat(H(h, 2, 3, 6, 7, 9, *range(20, 20 + len(opts))), payload, trail)
+    return cat(H(h, 7, *range(20, 20 + len(opts)), keys=(0, 2, 3, 6, 9) + opt_keys(opts, 20)), payload, trail)
 
 
 def udp(sp, dp, payload, ulen=None):
-    return cat(H(struct.pack("!HHHH", sp, dp, 8 + len(payload) if ulen is None else ulen, 0), 1, 2, 3, 4, 5), payload)
+    return cat(H(struct.pack("!HHHH", sp, dp, 8 + len(payload) if ulen is None else ulen, 0), keys=(0, 1, 2, 3, 4, 5)), payload)
 
 
 def tcp(sp, dp, payload, opts=b"", flags=0x18, off=None):
@@ -84,13 +108,13 @@ def tcp(sp, dp, payload, opts=b"", flags=0x18, off=None):
     o = opts + b"\0" * pad
     off = (20 + len(o)) // 4 if off is None else off
     h = struct.pack("!HHIIBBHHH", sp, dp, 0x01020304, 0xfffefdfc, off << 4, flags, 8192, 0, 0) + o
-    return cat(H(h, 12, 13, *range(20, 20 + len(o))), payload)
+    return cat(H(h, 13, *range(20, 20 + len(o)), keys=(12,) + opt_keys(o, 20)), payload)
 
 
 def icmp(typ, code, rest):
     b = bytes(rest)
     h = struct.pack("!BBH", typ, code, rfc1071(struct.pack("!BBH", typ, code, 0) + b))
-    return cat(H(h, 1), rest)
+    return cat(H(h, keys=(0, 1)), rest)
 
 
 def echo(ident, seq, data):
@@ -106,7 +130,7 @@ def timeex(quoted):
 
 
 def tlv(t, body):
-    return H(struct.pack("!H", (t << 9) | len(body)) + body, 1, 2)
+    return H(struct.pack("!H", (t << 9) | len(body)) + body, 2, keys=(0, 1))
 
 
 def lldp_full():
@@ -127,14 +151,14 @@ IP6_B = bytes.fromhex("ff0200000000000000000001ff000002")
 
 def ip6(nh, payload, plen=None, src=IP6_A, dst=IP6_B, hop=64):
     return cat(H(struct.pack("!IHBB", (6 << 28) | (0x12 << 20) | 0x34567, len(payload) if plen is None else plen, nh, hop) + src + dst,
-                 4, 5, 6), payload)
+                 keys=(4, 5, 6)), payload)
 
 
 def ext(nh, body):
     """normal IPv6 extension header: nh, len (8-octet units beyond the first 8), body padded"""
     n = (len(body) + 2 + 7) // 8 * 8
     b = body + b"\0" * (n - 2 - len(body))
-    return H(bytes([nh, n // 8 - 1]) + b, 1)
+    return H(bytes([nh, n // 8 - 1]) + b, keys=(0, 1))
 
 
 def frag6(nh):
@@ -148,7 +172,7 @@ def icmp6_csum(src, dst, msg):
 
 def icmp6(typ, code, rest, src=IP6_A, dst=IP6_B):
     msg = struct.pack("!BBH", typ, code, 0) + bytes(rest)
-    return cat(H(struct.pack("!BBH", typ, code, icmp6_csum(src, dst, msg)), 1), rest)
+    return cat(H(struct.pack("!BBH", typ, code, icmp6_csum(src, dst, msg)), keys=(0, 1)), rest)
 
 
 def fix_icmp6(frame):
@@ -162,13 +186,42 @@ def fix_icmp6(frame):
     return b[:56] + struct.pack("!H", c) + b[58:]
 
 
+def igmp_csum(msg):
+    """what igmp.parse recomputes (igmp.py:113-147): v3 reports with both reserved fields zeroed, the other types over type, max-resp, address"""
+    if msg[0] == 0x22: return rfc1071(bytes([msg[0], 0, 0, 0, 0, 0]) + msg[6:])
+    return rfc1071(msg[:2] + b"\0\0" + msg[4:])
+
+
+def fix_checksums(frame):
+    """After a mutation, recompute the checksums a parser verifies before it looks further — IGMP (igmp.parse) and ICMPv6 (icmpv6.parse) — and,
+    for realism, the IPv4 header checksum, of an Ethernet[/802.1Q…]/IPv4|IPv6 frame.  Returns the repaired frame (possibly identical)."""
+    b = bytearray(frame)
+    if len(b) < 14: return bytes(b)
+    off = 14; typ = (b[12] << 8) | b[13]
+    while typ == 0x8100 and len(b) >= off + 4:
+        typ = (b[off + 2] << 8) | b[off + 3]; off += 4
+    if typ == 0x0800 and len(b) >= off + 20:
+        hl = (b[off] & 15) * 4
+        if hl < 20 or off + hl > len(b): return bytes(b)
+        b[off + 10:off + 12] = b"\0\0"
+        b[off + 10:off + 12] = struct.pack("!H", rfc1071(bytes(b[off:off + hl])))
+        tot = (b[off + 2] << 8) | b[off + 3]
+        end = min(off + tot, len(b)); l4 = off + hl
+        if b[off + 9] == 2 and (b[off + 6] & 0x1f) == 0 and b[off + 7] == 0 and end - l4 >= 8:
+            b[l4 + 2:l4 + 4] = struct.pack("!H", igmp_csum(bytes(b[l4:end])))
+        return bytes(b)
+    if typ == 0x86dd and off == 14:
+        return fix_icmp6(bytes(b)) or bytes(b)
+    return bytes(b)
+
+
 def ndopt(t, body):
     n = (len(body) + 2 + 7) // 8
-    return H(bytes([t, n]) + body + b"\0" * (n * 8 - 2 - len(body)), 1)
+    return H(bytes([t, n]) + body + b"\0" * (n * 8 - 2 - len(body)), keys=(0, 1))
 
 
 def mpls(label, s, payload, tc=3, ttl=64):
-    return cat(H(struct.pack("!HBB", label >> 4, ((label & 0xf) << 4) | (tc << 1) | s, ttl), 2), payload)
+    return cat(H(struct.pack("!HBB", label >> 4, ((label & 0xf) << 4) | (tc << 1) | s, ttl), keys=(2,)), payload)
 
 
 def gre(typ, payload, csum=False, key=None, seq=None, routing=None, ver=0):
@@ -177,7 +230,7 @@ def gre(typ, payload, csum=False, key=None, seq=None, routing=None, ver=0):
     if csum or routing is not None: h += struct.pack("!HH", 0, 0)
     if key is not None: h += struct.pack("!I", key)
     if seq is not None: h += struct.pack("!I", seq)
-    marks = [1, 2, 3]
+    marks = [0, 1, 2, 3]
     if routing is not None:
         for af, so, sd in routing:
             marks.append(len(h) + 3)
@@ -187,16 +240,16 @@ def gre(typ, payload, csum=False, key=None, seq=None, routing=None, ver=0):
     if csum:
         c = rfc1071(h + bytes(payload))
         h = h[:4] + struct.pack("!H", c) + h[6:]
-    return cat(H(h, *marks), payload)
+    return cat(H(h, keys=marks), payload)
 
 
 def vxlan(vni, payload, flags=8):
-    return cat(H(bytes([flags, 0, 0, 0]) + struct.pack("!I", vni << 8)), payload)
+    return cat(H(bytes([flags, 0, 0, 0]) + struct.pack("!I", vni << 8), keys=(0,)), payload)
 
 
 def igmp2(vt, mrt, addr, extra=b""):
     b = struct.pack("!BBHI", vt, mrt, 0, addr) + extra
-    return H(b[:2] + struct.pack("!H", rfc1071(b)) + b[4:], 1)
+    return H(b[:2] + struct.pack("!H", rfc1071(b)) + b[4:], keys=(0, 1))
 
 
 def igmp3(groups, extra=b""):
@@ -205,14 +258,14 @@ def igmp3(groups, extra=b""):
         marks += [8 + len(g), 8 + len(g) + 1, 8 + len(g) + 2, 8 + len(g) + 3]
         g += struct.pack("!BBHI", t, len(aux) // 4, len(srcs), addr) + b"".join(struct.pack("!I", s) for s in srcs) + aux
     b = struct.pack("!BBHHH", 0x22, 0, 0, 0, len(groups)) + g + extra
-    return H(b[:2] + struct.pack("!H", rfc1071(b)) + b[4:], *marks)
+    return H(b[:2] + struct.pack("!H", rfc1071(b)) + b[4:], keys=[0, 1] + marks)
 
 
 def rip(cmd, ver, entries):
     b = struct.pack("!BBH", cmd, ver, 0)
     for af, tag, ipa, mask, nh, metric in entries:
         b += struct.pack("!HHIIII", af, tag, ipa, mask, nh, metric)
-    return H(b, 1, *range(4, len(b), 20))
+    return H(b, *range(4, len(b), 20), keys=(0, 1, 2, 3))
 
 
 def dhcp(op, options, hlen=6, magic=b"\x63\x82\x53\x63", sname=b"", file=b""):
@@ -222,7 +275,7 @@ def dhcp(op, options, hlen=6, magic=b"\x63\x82\x53\x63", sname=b"", file=b""):
     for code, val in options:
         marks += [len(b), len(b) + 1]
         b += bytes([code]) if code in (0, 255) else bytes([code, len(val)]) + val
-    return H(b, *marks)
+    return H(b, keys=[0, 1] + marks)
 
 
 def dname(*labels):
@@ -232,22 +285,22 @@ def dname(*labels):
 def dns(ident, flags, qs, ans=(), auth=(), add=()):
     """qs: [(namebytes, qtype, qclass)], rr: [(namebytes, type, class, ttl, rdata)] — names given in wire form (may contain pointers)"""
     b = struct.pack("!HHHHHH", ident, flags, len(qs), len(ans), len(auth), len(add))
-    marks = [2, 3, 5, 7, 9, 11]
+    marks = []; keys = [2, 3, 4, 5, 6, 7, 8, 9, 10, 11]
     for n, t, c in qs:
         marks += [len(b) + i for i, x in enumerate(n) if x & 0xc0 == 0xc0 or x < 64][:6]
         b += n + struct.pack("!HH", t, c)
     for n, t, c, ttl, rd in list(ans) + list(auth) + list(add):
         marks += [len(b), len(b) + 1, len(b) + len(n) + 1, len(b) + len(n) + 8, len(b) + len(n) + 9, len(b) + len(n) + 10, len(b) + len(n) + 11]
         b += n + struct.pack("!HHIH", t, c, ttl, len(rd)) + rd
-    return H(b, *marks)
+    return H(b, *marks, keys=keys)
 
 
 def eapol(ver, typ, body, blen=None):
-    return cat(H(struct.pack("!BBH", ver, typ, len(body) if blen is None else blen), 1, 2, 3), body)
+    return cat(H(struct.pack("!BBH", ver, typ, len(body) if blen is None else blen), keys=(1, 2, 3)), body)
 
 
 def eap(code, ident, data=b"", length=None):
-    return H(struct.pack("!BBH", code, ident, 4 + len(data) if length is None else length) + data, 2, 3, 4)
+    return H(struct.pack("!BBH", code, ident, 4 + len(data) if length is None else length) + data, keys=(0, 2, 3, 4))
 
 
 def corpus():
@@ -294,6 +347,14 @@ def corpus():
     add("tcp-mptcp", eth(0x0800, ip4(6, tcp(1000, 80, b"", opts=bytes([30, 12, 0x00, 0x81]) + b"\x11" * 8, flags=0x02))))
     add("tcp-mpjoin", eth(0x0800, ip4(6, tcp(1000, 80, b"", opts=bytes([30, 12, 0x10, 0x05]) + b"\x22" * 8, flags=0x02))))
     add("tcp-mpdss", eth(0x0800, ip4(6, tcp(1000, 80, b"x", opts=bytes([30, 8, 0x20, 0x01]) + b"\x33" * 4))))
+    # realistic payload-less handshake segments (option layouts of Linux, Windows, macOS, an MPTCP SYN)
+    ts = bytes([8, 10]) + struct.pack("!II", 0x00112233, 0)
+    add("tcp-syn-linux", eth(0x0800, ip4(6, tcp(40000, 443, b"", opts=bytes([2, 4, 5, 0xb4, 4, 2]) + ts + bytes([1, 3, 3, 7]), flags=0x02))))
+    add("tcp-synack-linux", eth(0x0800, ip4(6, tcp(443, 40000, b"", opts=bytes([2, 4, 5, 0xb4, 4, 2]) + ts + bytes([1, 3, 3, 7]), flags=0x12))))
+    add("tcp-syn-win", eth(0x0800, ip4(6, tcp(50000, 80, b"", opts=bytes([2, 4, 5, 0xb4, 1, 3, 3, 8, 1, 1, 4, 2]), flags=0x02))))
+    add("tcp-syn-mac", eth(0x0800, ip4(6, tcp(50001, 80, b"", opts=bytes([2, 4, 5, 0xb4, 1, 3, 3, 6, 1, 1]) + ts + bytes([4, 2, 0, 0]), flags=0x02))))
+    add("tcp-ack-ts", eth(0x0800, ip4(6, tcp(50001, 80, b"", opts=bytes([1, 1]) + ts, flags=0x10))))
+    add("tcp-syn-mptcp", eth(0x0800, ip4(6, tcp(40001, 443, b"", opts=bytes([2, 4, 5, 0xb4, 4, 2]) + ts + bytes([1, 3, 3, 7, 30, 12, 0x00, 0x81]) + b"\x11" * 8, flags=0x02))))
     add("icmp-echo", eth(0x0800, ip4(1, icmp(8, 0, echo(7, 9, b"ping data")))))
     add("icmp-reply", eth(0x0800, ip4(1, icmp(0, 0, echo(7, 9, b"")))))
     add("icmp-unreach", eth(0x0800, ip4(1, icmp(3, 4, unreach(1400, quoted_udp)))))
@@ -334,6 +395,9 @@ def corpus():
     add("vxlan", eth(0x0800, ip4(17, udp(49152, 4789, vxlan(0x123456, eth(0x0806, arp(1)))))))
     add("vxlan-noi", eth(0x0800, ip4(17, udp(4789, 4789, vxlan(0, eth(0x9999, b"in"), flags=0)))))
     add("igmp-query", eth(0x0800, ip4(2, igmp2(0x11, 100, 0), ttl=1)))
+    add("igmp-query3", eth(0x0800, ip4(2, igmp2(0x11, 100, 0, extra=bytes([0x02, 125, 0, 1]) + struct.pack("!I", 0x0a000001)), ttl=1)))
+    add("igmp-query3-gs", eth(0x0800, ip4(2, igmp2(0x11, 0x9a, 0xe0000116, extra=bytes([0x0a, 0x8f, 0, 0])), ttl=1)))
+    add("igmp-report1", eth(0x0800, ip4(2, igmp2(0x12, 0, 0xe0000116), ttl=1)))
     add("igmp-report2", eth(0x0800, ip4(2, igmp2(0x16, 0, 0xe0000116, extra=b"\0\0\0\0"), ttl=1)))
     add("igmp-leave", eth(0x0800, ip4(2, igmp2(0x17, 0, 0xe0000116), ttl=1)))
     add("igmp-v3", eth(0x0800, ip4(2, igmp3([(4, 0xe0000116, [], b""), (1, 0xe1020304, [0x0a000001, 0x0a000002], b"auxd")]), ttl=1)))
